@@ -44,6 +44,9 @@ def classify_term(e):
             return 'text:json-not-compact'
         if 'indent' in kw and not is_literal(kw['indent'], None):
             return 'text:json-not-compact'
+        if 'ensure_ascii' in kw and not is_literal(kw['ensure_ascii'], True):
+            # the text is later encoded as UTF-8: a lone surrogate left unescaped cannot be
+            return 'text:json-not-ascii'
         if set(kw) - {'separators', 'indent', 'ensure_ascii', 'sort_keys', 'default',
                       'allow_nan'}:
             return None
